@@ -1,7 +1,457 @@
-//! C31 — not built yet.
-use lv_common::Ctx;
+//! C31 — Network head selection follows the best-head rule.
+//!
+//! `ClientSim` (see hex_client_sim.rs): the real header-ex client handler, a recording request sender and the
+//! real peer tracker. A case is a population of peers, up to four head callers that join / are dropped at
+//! generated points, and a few *rounds*; in every round each peer that was actually asked answers as the
+//! recipe says, in the recipe's order. The oracle is evaluated at the quiescent point after the last answer
+//! of a round.
+use std::collections::HashMap;
+use std::sync::atomic::Ordering;
 
-pub fn run(_ctx: &mut Ctx) {
-    eprintln!("C31: check not built yet");
-    std::process::exit(2);
+use celestia_proto::p2p::pb::StatusCode;
+use celestia_types::ExtendedHeader;
+use celestia_types::hash::Hash;
+use lv_common::prelude::*;
+use tokio::sync::oneshot::error::TryRecvError;
+
+use crate::hex_client_sim::*;
+
+const MAX_PEERS: usize = 15;
+const HEIGHTS: usize = 5;
+const MAX_HEAD_PEERS: usize = 10;
+
+#[derive(Clone, Debug, Serialize, Deserialize)]
+pub enum Ans {
+    /// one valid header: height index, variant (0 = chain, 1.. = other valid header of the same height)
+    Valid { h: u8, v: u8 },
+    /// one header that fails validation
+    Invalid { h: u8, bad_sig: bool },
+    /// two valid headers
+    Two { h: u8 },
+    NotFound,
+    InvalidStatus,
+    /// outbound failure
+    Fail(u8),
+}
+
+#[derive(Clone, Debug, Serialize, Deserialize)]
+pub struct CallerSpec {
+    /// the caller asks for the head in this round ...
+    pub join_round: u8,
+    /// ... at this position (0 = before the round is scheduled, k = before the k-th answer is delivered,
+    /// beyond the number of answers = after the round)
+    pub join_at: u8,
+    /// the caller drops its receiver at (round, position)
+    pub drop: Option<(u8, u8)>,
+}
+
+#[derive(Clone, Debug, Serialize, Deserialize)]
+pub enum PeerOp {
+    Connect(u16),
+    Disconnect(u16),
+    Trust(u16, bool),
+}
+
+#[derive(Clone, Debug, Serialize, Deserialize)]
+pub struct Round {
+    /// applied before the round
+    pub peer_ops: Vec<PeerOp>,
+    /// answer of peer i (if it is asked)
+    pub answers: Vec<Ans>,
+    /// delivery order selectors
+    pub order: Vec<u16>,
+}
+
+#[derive(Clone, Debug, Serialize, Deserialize)]
+pub struct Case {
+    pub seed: u64,
+    pub peers: Vec<PeerSpec>,
+    pub callers: Vec<CallerSpec>,
+    pub rounds: Vec<Round>,
+}
+
+fn ans_valid() -> impl Strategy<Value = Ans> {
+    // few heights x few variants so that 0, 1, 2, 3.. peers agree at several heights
+    (0u8..HEIGHTS as u8, prop_oneof![3 => Just(0u8), 2 => Just(1u8), 1 => Just(2u8)]).prop_map(|(h, v)| Ans::Valid { h, v })
+}
+
+fn ans_bad() -> impl Strategy<Value = Ans> {
+    prop_oneof![
+        2 => (0u8..HEIGHTS as u8, any::<bool>()).prop_map(|(h, bad_sig)| Ans::Invalid { h, bad_sig }),
+        2 => (0u8..HEIGHTS as u8 - 1).prop_map(|h| Ans::Two { h }),
+        1 => Just(Ans::NotFound),
+        1 => Just(Ans::InvalidStatus),
+        2 => (0u8..5).prop_map(Ans::Fail),
+    ]
+}
+
+fn round_strategy() -> impl Strategy<Value = Round> {
+    let answers = prop_oneof![
+        6 => prop::collection::vec(prop_oneof![7 => ans_valid(), 3 => ans_bad()], MAX_PEERS),
+        2 => prop::collection::vec(prop_oneof![1 => ans_valid(), 8 => ans_bad()], MAX_PEERS),
+        2 => prop::collection::vec(ans_bad(), MAX_PEERS),
+    ];
+    let op = prop_oneof![
+        any::<u16>().prop_map(PeerOp::Connect),
+        any::<u16>().prop_map(PeerOp::Disconnect),
+        (any::<u16>(), any::<bool>()).prop_map(|(s, t)| PeerOp::Trust(s, t)),
+    ];
+    (prop::collection::vec(op, 0..3), answers, prop::collection::vec(any::<u16>(), MAX_HEAD_PEERS)).prop_map(
+        |(peer_ops, answers, order)| Round {
+            peer_ops,
+            answers,
+            order,
+        },
+    )
+}
+
+fn case_strategy(max_rounds: usize) -> impl Strategy<Value = Case> {
+    let peer = (prop::bool::weighted(0.7), prop::bool::weighted(0.8), prop::bool::weighted(0.3)).prop_map(|(trusted, connected, archival)| PeerSpec {
+        trusted,
+        connected,
+        archival,
+    });
+    let caller = (
+        prop_oneof![3 => Just(0u8), 1 => 0u8..3],
+        prop_oneof![3 => Just(0u8), 2 => 0u8..12],
+        prop::option::weighted(0.3, (0u8..3, 0u8..12)),
+    )
+        .prop_map(|(join_round, join_at, drop)| CallerSpec { join_round, join_at, drop });
+    (
+        any::<u64>(),
+        prop_oneof![4 => prop::collection::vec(peer.clone(), 1..=10), 1 => prop::collection::vec(peer, 11..=MAX_PEERS)],
+        prop::collection::vec(caller, 1..=4),
+        prop::collection::vec(round_strategy(), 1..=max_rounds),
+    )
+        .prop_map(|(seed, peers, callers, rounds)| Case { seed, peers, callers, rounds })
+}
+
+struct Caller {
+    rx: Option<SimAnswerReceiver>,
+    joined: bool,
+    dropped: bool,
+    /// Some(round) once an answer was read from the channel
+    answered_in: Option<usize>,
+}
+
+/// The best-head rule of the statement, as a predicate on the delivered header.
+fn rule_violation(valid: &[ExtendedHeader], got: &ExtendedHeader) -> Option<String> {
+    let mut count: HashMap<Hash, usize> = HashMap::new();
+    for h in valid {
+        *count.entry(h.hash()).or_default() += 1;
+    }
+    if !valid.iter().any(|h| h.hash() == got.hash() && h.height() == got.height()) {
+        return Some(format!("answer (height {}, hash {}) is none of the valid headers reported in this round", got.height(), got.hash()));
+    }
+    let agreed_max = valid.iter().filter(|h| count[&h.hash()] >= 2).map(|h| h.height()).max();
+    match agreed_max {
+        Some(m) => {
+            if count[&got.hash()] < 2 || got.height() != m {
+                return Some(format!(
+                    "answer height {} reported by {} peer(s); but height {} is the highest reported by >= 2 peers",
+                    got.height(),
+                    count[&got.hash()],
+                    m
+                ));
+            }
+        }
+        None => {
+            let m = valid.iter().map(|h| h.height()).max().unwrap();
+            if got.height() != m {
+                return Some(format!("no header has two reporters; answer height {} but highest reported is {}", got.height(), m));
+            }
+        }
+    }
+    None
+}
+
+fn run_case(case: &Case, obs: &mut Obs) -> Result<(), Failure> {
+    let rt = runtime();
+    rt.block_on(async {
+        let mut pool = HeaderPool::new(case.seed, 10, HEIGHTS + 1)?;
+        let mut d = Driver::new(&case.peers);
+        let np = case.peers.len();
+        let mut callers: Vec<Caller> = case
+            .callers
+            .iter()
+            .map(|_| Caller {
+                rx: None,
+                joined: false,
+                dropped: false,
+                answered_in: None,
+            })
+            .collect();
+        if case.peers.iter().any(|p| p.connected && !p.trusted) {
+            obs.label("untrusted-connected-peer-present");
+        }
+        if case.peers.iter().any(|p| !p.connected && p.trusted) {
+            obs.label("disconnected-trusted-peer-present");
+        }
+
+        for (r, round) in case.rounds.iter().enumerate() {
+            for op in &round.peer_ops {
+                match op {
+                    PeerOp::Connect(s) => {
+                        let i = pick(*s, np);
+                        d.sim.add_connection(&d.peers[i].clone(), i);
+                    }
+                    PeerOp::Disconnect(s) => {
+                        let i = pick(*s, np);
+                        d.sim.remove_connection(&d.peers[i].clone(), i);
+                    }
+                    PeerOp::Trust(s, t) => {
+                        let i = pick(*s, np);
+                        d.sim.set_trusted(&d.peers[i].clone(), *t);
+                    }
+                }
+            }
+
+            // joins and drops scheduled for (round r, position at); `upto` = apply everything still due in r
+            let apply_events = |d: &mut Driver, callers: &mut Vec<Caller>, obs: &mut Obs, at: u8, upto: bool| {
+                for (c, spec) in case.callers.iter().enumerate() {
+                    let due = |(rr, aa): (u8, u8)| rr as usize == r && (aa == at || (upto && aa >= at));
+                    if !callers[c].joined && due((spec.join_round, spec.join_at)) {
+                        callers[c].joined = true;
+                        callers[c].rx = Some(d.sim.send_request(head_request()));
+                        if at > 0 {
+                            obs.label("caller-joined-while-round-in-flight");
+                        }
+                    }
+                    if let Some(dr) = spec.drop {
+                        if callers[c].joined && !callers[c].dropped && callers[c].answered_in.is_none() && due(dr) {
+                            callers[c].dropped = true;
+                            callers[c].rx = None;
+                            obs.label("caller-dropped-before-answer");
+                        }
+                    }
+                }
+            };
+
+            apply_events(&mut d, &mut callers, obs, 0, false);
+            let waiting_at_schedule = callers.iter().filter(|c| c.joined && !c.dropped && c.answered_in.is_none()).count();
+            let eligible: Vec<usize> = (0..np).filter(|&i| { let s = d.state(i); s.connected && s.trusted }).collect();
+
+            d.run_for(TICK).await;
+            let sends = d.take_sends();
+
+            // ---- where the round was sent
+            let mut asked: Vec<usize> = Vec::new();
+            for s in &sends {
+                obs.check(s.request == head_request(), "C31:unexpected-request", || format!("round {r}: non-head request sent: {:?}", s.request))?;
+                let Some(i) = d.peer_index(&s.peer) else {
+                    return obs.fail("C31:sent-to-unknown-peer", format!("round {r}: head request sent to unknown peer {}", s.peer));
+                };
+                let st = d.state(i);
+                obs.check(st.connected && st.trusted, "C31:head-request-to-ineligible-peer", || {
+                    format!("round {r}: head request sent to peer #{i} with state {st:?} (must be connected and trusted)")
+                })?;
+                obs.check(!asked.contains(&i), "C31:peer-asked-twice", || format!("round {r}: peer #{i} asked twice in one round"))?;
+                asked.push(i);
+            }
+            obs.check(sends.len() <= MAX_HEAD_PEERS, "C31:more-than-10-peers", || format!("round {r}: {} head requests in one round", sends.len()))?;
+            if eligible.len() > MAX_HEAD_PEERS && !sends.is_empty() {
+                obs.label("more-than-10-eligible-peers");
+            }
+            if waiting_at_schedule > 0 && !eligible.is_empty() {
+                // quiescent point, a tick has passed: the pending head request must have been scheduled
+                obs.check(!sends.is_empty(), "C31:head-round-not-scheduled", || {
+                    format!("round {r}: {waiting_at_schedule} caller(s) waiting, {} connected trusted peer(s), a scheduling tick passed, but no head request was sent", eligible.len())
+                })?;
+            }
+            if waiting_at_schedule > 0 && eligible.is_empty() {
+                obs.label("no-eligible-peer-round-waits");
+            }
+
+            // ---- answers
+            let n = sends.len();
+            let mut remaining = sends;
+            let mut valid: Vec<ExtendedHeader> = Vec::new();
+            let mut delivered: Vec<(usize, Ans)> = Vec::new();
+            for k in 0..n {
+                apply_events(&mut d, &mut callers, obs, (k + 1) as u8, false);
+                let idx = pick(round.order[k.min(round.order.len() - 1)], remaining.len());
+                let s = remaining.remove(idx);
+                let i = d.peer_index(&s.peer).unwrap();
+                let ans = round.answers[i].clone();
+                match &ans {
+                    Ans::Valid { h, v } => {
+                        let hd = pool.get(*h as usize, *v);
+                        d.sim.on_response(s.peer, s.id, vec![resp_ok(&hd)]);
+                        valid.push(hd);
+                    }
+                    Ans::Invalid { h, bad_sig } => {
+                        let hd = pool.invalid(*h as usize, *bad_sig);
+                        d.sim.on_response(s.peer, s.id, vec![resp_ok(&hd)]);
+                    }
+                    Ans::Two { h } => {
+                        let a = pool.get(*h as usize, 0);
+                        let b = pool.get(*h as usize + 1, 0);
+                        d.sim.on_response(s.peer, s.id, vec![resp_ok(&a), resp_ok(&b)]);
+                    }
+                    Ans::NotFound => d.sim.on_response(s.peer, s.id, vec![resp_status(StatusCode::NotFound)]),
+                    Ans::InvalidStatus => d.sim.on_response(s.peer, s.id, vec![resp_status(StatusCode::Invalid)]),
+                    Ans::Fail(kd) => d.sim.on_failure(s.peer, s.id, failure_kind(*kd)),
+                }
+                delivered.push((i, ans));
+                d.run_for(SETTLE).await;
+                if !d.take_sends().is_empty() {
+                    // a second round while one is in flight: outside what this harness can attribute
+                    BUDGET_OVERRUN.store(true, Ordering::SeqCst);
+                    return Ok(());
+                }
+            }
+
+            // ---- quiescent point after the last answer: collect what the callers got
+            let waiting: Vec<usize> = (0..callers.len()).filter(|&c| callers[c].joined && !callers[c].dropped && callers[c].answered_in.is_none()).collect();
+            let mut got: Vec<(usize, ExtendedHeader)> = Vec::new();
+            for &c in &waiting {
+                match callers[c].rx.as_mut().unwrap().try_recv() {
+                    Ok(Ok(hs)) => {
+                        callers[c].answered_in = Some(r);
+                        obs.check(hs.len() == 1, "C31:answer-not-single-header", || format!("round {r}: caller {c} received {} headers", hs.len()))?;
+                        got.push((c, hs.into_iter().next().unwrap()));
+                    }
+                    Ok(Err(e)) => {
+                        return obs.fail("C31:caller-received-error", format!("round {r}: head caller {c} received an error: {e}"));
+                    }
+                    Err(TryRecvError::Empty) => {}
+                    Err(TryRecvError::Closed) => {
+                        return obs.fail("C31:caller-channel-closed", format!("round {r}: head caller {c}'s channel was closed without an answer"));
+                    }
+                }
+            }
+
+            if n > 0 {
+                let mut hashes: Vec<Hash> = valid.iter().map(|h| h.hash()).collect();
+                hashes.sort();
+                hashes.dedup();
+                let nontrivial = valid.len() >= 2 && hashes.len() >= 2;
+                obs.eval(nontrivial.then(|| digest_of(&(case.seed, &delivered))));
+                if valid.is_empty() {
+                    obs.label("round-without-valid-answer");
+                    obs.check(got.is_empty(), "C31:answered-without-valid-response", || {
+                        format!("round {r}: no valid single-header answer was delivered, but caller(s) {:?} were answered", got.iter().map(|g| g.0).collect::<Vec<_>>())
+                    })?;
+                } else {
+                    // every waiting caller is answered, all the same, and the rule holds
+                    obs.check(got.len() == waiting.len(), "C31:waiting-caller-not-answered", || {
+                        format!(
+                            "round {r}: {} valid answer(s) were delivered and the round is complete, but only {} of {} waiting callers were answered",
+                            valid.len(),
+                            got.len(),
+                            waiting.len()
+                        )
+                    })?;
+                    for w in got.windows(2) {
+                        obs.check(w[0].1.hash() == w[1].1.hash() && w[0].1.height() == w[1].1.height(), "C31:callers-received-different-heads", || {
+                            format!("round {r}: caller {} got height {} hash {}, caller {} got height {} hash {}", w[0].0, w[0].1.height(), w[0].1.hash(), w[1].0, w[1].1.height(), w[1].1.hash())
+                        })?;
+                    }
+                    if got.len() >= 2 {
+                        obs.label("several-callers-same-answer");
+                    }
+                    // classification
+                    let mut count: HashMap<Hash, usize> = HashMap::new();
+                    for h in &valid {
+                        *count.entry(h.hash()).or_default() += 1;
+                    }
+                    let agreed_max = valid.iter().filter(|h| count[&h.hash()] >= 2).map(|h| h.height()).max();
+                    let overall_max = valid.iter().map(|h| h.height()).max().unwrap();
+                    let mut heights: Vec<(u64, Hash)> = valid.iter().map(|h| (h.height(), h.hash())).collect();
+                    heights.sort();
+                    heights.dedup();
+                    if heights.windows(2).any(|w| w[0].0 == w[1].0) {
+                        obs.label("same-height-different-hash");
+                    }
+                    match agreed_max {
+                        Some(m) => {
+                            obs.label("round-with-agreement");
+                            if m < overall_max {
+                                obs.label("agreement-below-highest-reported");
+                            }
+                            if valid.iter().any(|h| count[&h.hash()] >= 2 && h.height() < m) {
+                                obs.label("agreement-at-several-heights");
+                            }
+                            if valid.iter().filter(|h| h.height() == m && count[&h.hash()] >= 2).map(|h| h.hash()).collect::<std::collections::BTreeSet<_>>().len() >= 2 {
+                                obs.label("two-agreed-headers-at-best-height");
+                            }
+                        }
+                        None => {
+                            obs.label("round-without-agreement");
+                            if heights.iter().filter(|x| x.0 == overall_max).count() >= 2 {
+                                obs.label("no-agreement-tie-at-highest");
+                            }
+                        }
+                    }
+                    if let Some((c, h)) = got.first() {
+                        if let Some(why) = rule_violation(&valid, h) {
+                            let rep: Vec<String> = valid.iter().map(|v| format!("h{}:{}", v.height(), &v.hash().to_string()[..8])).collect();
+                            return obs.fail("C31:best-head-rule", format!("round {r}: caller {c}: {why}; valid answers of the round: {rep:?}"));
+                        }
+                    } else {
+                        obs.label("round-resolved-nobody-waiting");
+                    }
+                }
+            } else {
+                obs.check(got.is_empty(), "C31:answered-without-valid-response", || format!("round {r}: nothing was sent but callers {:?} were answered", got.iter().map(|g| g.0).collect::<Vec<_>>()))?;
+            }
+
+            // whatever is still due in this round happens after the round
+            apply_events(&mut d, &mut callers, obs, (n + 1) as u8, true);
+
+            if n > 0 && valid.is_empty() && r + 1 == case.rounds.len() {
+                // a new round must be scheduled after a failed one (checked inside the loop for inner rounds)
+                let waiting_now = callers.iter().filter(|c| c.joined && !c.dropped && c.answered_in.is_none()).count();
+                let eligible_now = (0..np).filter(|&i| { let s = d.state(i); s.connected && s.trusted }).count();
+                d.run_for(TICK).await;
+                let again = d.take_sends();
+                if waiting_now > 0 && eligible_now > 0 {
+                    obs.check(!again.is_empty(), "C31:head-round-not-scheduled", || format!("after failed round {r}: {waiting_now} caller(s) still waiting, {eligible_now} eligible peer(s), but no new head round was sent"))?;
+                    obs.label("failed-round-rescheduled");
+                }
+            } else if n > 0 && valid.is_empty() {
+                obs.label("failed-round-followed-by-another");
+            }
+        }
+        d.sim.stop();
+        Ok(())
+    })
+}
+
+pub fn run(ctx: &mut Ctx) {
+    ctx.assume("hook lumina_node::verif::header_ex_client_sim forwards 1:1 to HeaderExClientHandler / PeerTracker (real handler, real tracker; only the RequestSender is a recorder)");
+    ctx.assume("peer state at send time is read from the real PeerTracker (its own correctness is C39's subject)");
+    ctx.assume("the client picks peers through HashMap order / thread_rng: the oracle is independent of which eligible peers were asked (answers are attributed to the peer actually asked)");
+    ctx.assume("the oracle is applied at quiescent points under a paused clock (handler polled to Pending after every injected answer, 250 ms of virtual time for a scheduling tick)");
+    ctx.essential(&[
+        "round-with-agreement",
+        "round-without-agreement",
+        "agreement-below-highest-reported",
+        "same-height-different-hash",
+        "round-without-valid-answer",
+        "failed-round-followed-by-another",
+        "caller-dropped-before-answer",
+        "several-callers-same-answer",
+        "untrusted-connected-peer-present",
+        "disconnected-trusted-peer-present",
+    ]);
+    ctx.set_shrink_iters(600);
+    let cases = ctx.tier.pick(4000, 120_000);
+    let max_rounds = 3;
+    let reps = replay_reps();
+    ctx.proptest(
+        "head-rounds",
+        "per case: 1..15 peers (trusted/untrusted, connected/disconnected), 1..4 head callers joining/dropping at generated points, 1..3 rounds of per-peer answers (valid header from 5 heights x 3 hashes, invalid header, two headers, NotFound, Invalid status, outbound failure) delivered in generated order; one evaluation per round that was sent. Non-trivial = round with >= 2 valid answers carrying >= 2 distinct hashes (the selection rule decides); distinct by (chain seed, delivered (peer, answer) sequence)",
+        cases,
+        move || case_strategy(max_rounds),
+        move |case, obs| {
+            for _ in 0..reps {
+                run_case(case, obs)?;
+            }
+            Ok(())
+        },
+    );
+    if BUDGET_OVERRUN.load(Ordering::SeqCst) {
+        ctx.inconclusive("a simulation exceeded the harness's step budget or produced overlapping head rounds the harness cannot attribute");
+    }
 }
